@@ -238,9 +238,18 @@ pub fn encode_calls(w: WriterKind, opt: &Opt, sig: &Sig, pcm: &[i32], cuts: Opti
 /// `encode_calls` with two more history dimensions: `flush` = the byte writers' `io::Write::flush` is called after
 /// every write call (the other writers have no flush); `drop_it` = the writer is dropped instead of finalized.
 pub fn encode_hist(w: WriterKind, opt: &Opt, sig: &Sig, pcm: &[i32], cuts: Option<&[usize]>, flush: bool, drop_it: bool) -> Result<Vec<u8>, String> {
+    encode_sink(w, opt, sig, pcm, cuts, flush, drop_it, 0)
+}
+
+/// `encode_hist` over a sink that accepts at most `max_write` bytes per write call (0 = whole buffers): a legal short-writing
+/// `io::Write`; the finished file must not depend on it.
+#[allow(clippy::too_many_arguments)]
+pub fn encode_sink(w: WriterKind, opt: &Opt, sig: &Sig, pcm: &[i32], cuts: Option<&[usize]>, flush: bool, drop_it: bool, max_write: usize) -> Result<Vec<u8>, String> {
     let options = opt.to_options()?;
     let r = guarded(|| -> Result<Vec<u8>, String> {
-        let mut out = Cursor::new(Vec::new());
+        let mut out = crate::devices::MemDevice::new(Vec::new(), 0);
+        out.max_write = max_write;
+        out.quiet = true;
         let ch = sig.ch as usize;
         let frames = if ch > 0 { pcm.len() / ch } else { 0 };
         let e = |x: flac_codec::Error| format!("err:{x:?}");
@@ -299,7 +308,7 @@ pub fn encode_hist(w: WriterKind, opt: &Opt, sig: &Sig, pcm: &[i32], cuts: Optio
                 if drop_it { drop(wr) } else { wr.finalize().map_err(e)? }
             }
         }
-        Ok(out.into_inner())
+        Ok(out.data)
     });
     match r {
         Ok(x) => x,
